@@ -96,7 +96,8 @@ class ThriftServer(PlannedServer):
       except Exception as e:
         self.malformed.append((w.clock.now, conn.cid, repr(e)))
         continue
-      rec = {'time': w.clock.now, 'conn': conn.cid, 'port': self.port, 'arg': arg, 'method': name, 'seq': seq}
+      rec = {'time': w.clock.now, 'conn': conn.cid, 'port': self.port, 'arg': arg, 'method': name, 'tseq': seq,
+             'seq': w.next_seq() if hasattr(w, 'next_seq') else None}
       self.requests.append(rec)
       act = self.action_for(arg, len(self.requests) - 1)
       self._do(conn, act, name, seq, arg)
@@ -180,6 +181,7 @@ class MuxServer(PlannedServer):
       elif mtype == T_DISCARDED:
         named = int.from_bytes(body[:3], 'big') if len(body) >= 3 else None
         self.discards.append({'time': w.clock.now, 'conn': conn.cid, 'named': named, 'frame_tag': tag,
+                              'seq': w.next_seq() if hasattr(w, 'next_seq') else None,
                               'why': body[3:].decode('utf-8', 'replace')})
       elif mtype == T_DISPATCH:
         try:
@@ -188,8 +190,8 @@ class MuxServer(PlannedServer):
         except Exception as e:
           self.malformed.append((w.clock.now, conn.cid, repr(e)))
           continue
-        rec = {'time': w.clock.now, 'conn': conn.cid, 'port': self.port, 'arg': arg, 'method': name, 'seq': seq,
-               'tag': tag, 'ctx': [(k.decode('utf-8', 'replace'), v.hex()) for k, v in ctx]}
+        rec = {'time': w.clock.now, 'conn': conn.cid, 'port': self.port, 'arg': arg, 'method': name, 'tseq': seq,
+               'seq': w.next_seq() if hasattr(w, 'next_seq') else None, 'tag': tag, 'ctx': [(k.decode('utf-8', 'replace'), v.hex()) for k, v in ctx]}
         self.requests.append(rec)
         act = self.action_for(arg, len(self.requests) - 1)
         self._do(conn, act, name, seq, arg, tag)
